@@ -141,6 +141,39 @@ def shard_damage(spec):
     return acc
 
 
+STRAY_CHARS = ["\x1c", "\x1d", "\x1e", "\x1f", "\x85", "\xa0", "\u1680", "\u2000", "\u2003", "\u2028", "\u2029",
+               "\u202f", "\u205f", "\u3000", "\u200b", "\xad", "\x00", "\x0e", "@", "$", "\\", "?", "`", "^"]
+STRAY_TEMPLATES = ["a = 1 {c} b = 1", "a = 1\n{c}\nb = 1\nEND\n", "{c} a = 1", "a = 1 {c}", "a = 1 {c} END",
+                   "GROUP = g {c} a = 1 END_GROUP", "GROUP = g a = 1 {c} END_GROUP = g", "a = ( 1 , 2 ) {c} b = 1",
+                   "a = \"s\" {c}\n"]
+
+
+def shard_stray(chars):
+    """A token made of one character that is neither PVL white space nor part of
+    any construct, standing between statements: a stray token (or a forbidden
+    character) - the load must raise either way."""
+    acc = Acc()
+    for c in chars:
+        for tmpl in STRAY_TEMPLATES:
+            text = tmpl.replace("{c}", c)
+            for d in impl.DIALECTS:
+                r = loaders.outcome(d, text)
+                acc.n += 1
+                acc.traces += 1
+                if r[0] == "doc":
+                    acc.nontrivial += 1
+                    acc.outcomes["ill-rejected"] += 1
+                elif r[0] == "ok":
+                    acc.outcomes["violation"] += 1
+                    acc.violation({"kind": "stray", "text": text, "dialect": d},
+                                  "ill-formed-accepted:stray-character:" + d,
+                                  "text %r (U+%04X standing alone between statements) loaded as %r"
+                                  % (text, ord(c), T.loose(r[1])), sig="%s|stray-char|U+%04X" % (d, ord(c)))
+                else:
+                    acc.outcomes["not-total(C06)"] += 1
+    return acc
+
+
 def run(ctx):
     acc = Acc()
     q = ctx.quick
@@ -164,6 +197,7 @@ def run(ctx):
             dspecs.append((di, 1 if q else 2, lo, lo + step))
         judge(acc, base, {"kind": "damage", "doc": di, "damage": []})
     ctx.pmap(shard_damage, dspecs, into=acc)
+    ctx.pmap(shard_stray, [STRAY_CHARS[i::8] for i in range(8)], into=acc)
     edges = acc.sets["edges"]
     cov = {
         "evaluations": acc.n, "distinct_nontrivial": acc.nontrivial,
@@ -196,6 +230,12 @@ def _seq_from(case):
 
 def replay(case):
     acc = Acc()
+    if case.get("kind") == "stray":
+        r = loaders.outcome(case["dialect"], case["text"])
+        if r[0] == "ok":
+            return [{"case": case, "diagnosis": "ill-formed-accepted:stray-character:" + case["dialect"],
+                     "detail": "loaded as %r" % (T.loose(r[1]),)}]
+        return []
     seq = _seq_from(case)
     keep = loaders.impl.DIALECTS
     judge(acc, seq, {k: v for k, v in case.items() if k not in ("tokens", "dialect", "compact")},
@@ -204,6 +244,8 @@ def replay(case):
 
 
 def candidates(case):
+    if "tokens" not in case:
+        return
     toks = case["tokens"]
     for i in range(len(toks)):
         c = {"tokens": toks[:i] + toks[i + 1:], "dialect": case["dialect"], "kind": "sequence"}
